@@ -98,6 +98,61 @@ func init() {
 			return true
 		})
 		emit("saveStatusCalls", sc, e.pos(fd))
+		// kv mode: SaveWAL truncates the undo log, then persists the height; a trie's Commit appends its pre-images to the undo log
+		// (saveWAL, fsynced) before it commits its batch; the startup switch on the persisted kv height
+		fd, err = e.funcDecl("state/keyvalue.go", "wrappedDB", "SaveWAL")
+		if err != nil {
+			return "", err
+		}
+		var sw []string
+		ast.Inspect(fd.Body, func(x ast.Node) bool {
+			if c, ok := x.(*ast.CallExpr); ok {
+				switch fn := c.Fun.(type) {
+				case *ast.SelectorExpr:
+					if fn.Sel.Name == "Truncate" {
+						sw = append(sw, "Truncate")
+					}
+				case *ast.Ident:
+					if fn.Name == "saveHeight" {
+						sw = append(sw, "saveHeight")
+					}
+				}
+			}
+			return true
+		})
+		emit("saveWALCalls", sw, e.pos(fd))
+		fd, err = e.funcDecl("state/keyvalue.go", "wrappedTrie", "Commit")
+		if err != nil {
+			return "", err
+		}
+		var kc []string
+		for _, c := range selCalls(fd.Body, set("saveWAL", "Commit")) {
+			if c == "Commit" && len(kc) == 0 {
+				continue // the delegation to the old trie in trie mode (first statement, returns)
+			}
+			kc = append(kc, c)
+		}
+		emit("kvTrieCommitCalls", kc, e.pos(fd))
+		fd, err = e.funcDecl("state/keyvalue.go", "", "NewKeyValueDBWithCache")
+		if err != nil {
+			return "", err
+		}
+		var cases []string
+		ast.Inspect(fd.Body, func(x ast.Node) bool {
+			if sw, ok := x.(*ast.SwitchStmt); ok {
+				for _, st := range sw.Body.List {
+					cc := st.(*ast.CaseClause)
+					if len(cc.List) == 0 {
+						cases = append(cases, "default")
+					} else {
+						cases = append(cases, src(e, cc.List[0]))
+					}
+				}
+				return false
+			}
+			return true
+		})
+		emit("kvStartupCases", cases, e.pos(fd))
 		// consensus side: finalizeCommit's order (application commit, WAL end-of-height marker, status) and the startup rule of
 		// node.NewNode that rebuilds a status lagging one block behind the application
 		fd, err = e.funcDecl("consensus/state.go", "ConsensusState", "finalizeCommit")
